@@ -774,6 +774,8 @@ def _w3():
     return _v6().map(lambda v: v[3:].copy())
 
 
+_ROTC = _rotcomp()
+_POSC = _poscomp()
 _IDX = st.integers(0, 7)
 _QS = st.sampled_from([1.0, -1.0, 2.0, -0.5, 1e-3, -1e3])
 _KMUL = st.one_of(st.sampled_from([2.0, -1.0, 0.5, 0.0, 3.0, 1.0]), G.floats(-3.0, 3.0))
@@ -788,19 +790,25 @@ def _fd(name, **kw):
     return st.fixed_dictionaries(d)
 
 
+_SLICES = st.sampled_from([(0, 3), (3, 6), (0, 6), (2, 5), (1, 2), (4, 6), (0, 1), (3, 6), (0, 3)])
+_FORMS = st.sampled_from(["list", "flat"])
+_FORMS3 = st.sampled_from(["list", "flat", "col", "col"])
+_I6 = st.integers(0, 5)
+_SETNAME = st.sampled_from(["set", "setitem"])
+
+
 @st.composite
 def _setslice(draw):
-    lo, hi = draw(st.sampled_from([(0, 3), (3, 6), (0, 6), (2, 5), (1, 2), (4, 6), (0, 1), (3, 6), (0, 3)]))
-    forms = ["list", "flat"] + (["col", "col"] if hi - lo == 3 else [])
-    vals = [draw(_poscomp() if k < 3 else _rotcomp()) for k in range(lo, hi)]
-    return {"op": "setslice", "a": draw(_IDX), "lo": lo, "hi": hi, "vals": vals, "form": draw(st.sampled_from(forms))}
+    lo, hi = draw(_SLICES)
+    vals = [draw(_POSC if k < 3 else _ROTC) for k in range(lo, hi)]
+    return {"op": "setslice", "a": draw(_IDX), "lo": lo, "hi": hi, "vals": vals,
+            "form": draw(_FORMS3 if hi - lo == 3 else _FORMS)}
 
 
 @st.composite
 def _setone(draw):
-    i = draw(st.integers(0, 5))
-    return {"op": draw(st.sampled_from(["set", "setitem"])), "a": draw(_IDX), "i": i,
-            "x": draw(_poscomp() if i < 3 else _rotcomp())}
+    i = draw(_I6)
+    return {"op": draw(_SETNAME), "a": draw(_IDX), "i": i, "x": draw(_POSC if i < 3 else _ROTC)}
 
 
 def _constructors():
